@@ -75,11 +75,48 @@ func runDeadline(c *DeadlineCase) error {
 	case "long-control":
 		ctx, cancel = context.WithTimeout(context.Background(), 30*time.Second)
 		limit = 30 * time.Second
+	case "cancel-after-runs":
+		var cf context.CancelFunc
+		ctx, cf = context.WithCancel(context.Background())
+		cancel = cf
 	}
 	defer cancel()
 	r, err := mk(ctx)
 	if err != nil {
 		return fmt.Errorf("Prepare rejected the script: %v", err)
+	}
+	if c.Ctx == "cancel-after-runs" {
+		// the evaluator is used successfully first; then the context ends; the
+		// next run must not execute anything
+		for i := 0; i < c.Millis; i++ {
+			if _, err := r.E.Execute(map[string]interface{}{"N": 3}); err != nil && c.Endless == false {
+				return nil // the control script fails by itself: nothing to learn
+			}
+		}
+		cancel()
+		atomic.StoreInt32(&traced, 0)
+		var res2 struct {
+			err error
+			pan interface{}
+		}
+		func() {
+			defer func() { res2.pan = recover() }()
+			if c.UseRun {
+				_, res2.err = r.E.Run(map[string]interface{}{"N": 3})
+			} else {
+				_, res2.err = r.E.Execute(map[string]interface{}{"N": 3})
+			}
+		}()
+		if res2.pan != nil {
+			return fmt.Errorf("panic: %v", res2.pan)
+		}
+		if res2.err == nil {
+			return fmt.Errorf("after %d successful run(s) the context was cancelled, yet the next run executed and returned no error", c.Millis)
+		}
+		if n := atomic.LoadInt32(&traced); n != 0 {
+			return fmt.Errorf("after %d successful run(s) the context was cancelled, yet the next run made %d host call(s)", c.Millis, n)
+		}
+		return nil
 	}
 	type result struct {
 		val lang.Value
@@ -178,7 +215,7 @@ func endlessScript(rt *rapid.T) (string, string) {
 		}
 		return strings.Replace(l, "BODY", b, 1)
 	}
-	shape := rapid.SampledFrom([]string{"top", "top", "function", "nested-functions", "function-in-loop", "recursion-with-loop", "foreach-endless", "after-work", "branching-recursion", "branching-recursion", "mutual-branching", "straight-line"}).Draw(rt, "shape")
+	shape := rapid.SampledFrom([]string{"top", "top", "function", "nested-functions", "function-in-loop", "recursion-with-loop", "foreach-endless", "after-work", "branching-recursion", "branching-recursion", "mutual-branching", "straight-line", "cheap-ops"}).Draw(rt, "shape")
 	pre := "trace(0); x = 0;\n"
 	switch shape {
 	case "top":
@@ -224,6 +261,11 @@ func endlessScript(rt *rapid.T) (string, string) {
 		}
 		b.WriteString("}")
 		return b.String(), shape
+	case "cheap-ops":
+		// single operations that are instantaneous however large their operands look
+		op := rapid.SampledFrom([]string{"x = 1 ** 4000000000000000000;", "x = 0 ** 9223372036854775807;", "x = (0 - 1) ** 9223372036854775806;", "x = 2 ** 62;", "x = 1.0 ** 1000000000000.0;",
+			"x = 9223372036854775807 % 3;", "x = 9223372036854775807 / 2;", "x = (0 - 9223372036854775807) * 3;", "x = \"a\" in \"abcabc\";", "x = len(\"狐犬\");", "x = [1, 2, 3][2];"}).Draw(rt, "cheapop")
+		return pre + "while (true) { " + op + " }", shape
 	case "foreach-endless":
 		return pre + "while (true) { foreach i, v in 1.." + fmt.Sprint(rapid.IntRange(1, 10000).Draw(rt, "rangelen")) + " { x = v; } }", shape
 	}
@@ -240,7 +282,13 @@ func TestC09(t *testing.T) {
 		if gen.Uniform(rt, "control", 6) == 0 {
 			pr := gen.Program(rt, gen.ProgOpts{Depth: 2, Block: 3, Funcs: 1, Ternary: true, Switch: true, EarlyRet: true, NoSqrtFold: true})
 			c.Script = lang.ProgramText(pr.P)
-			c.Ctx = rapid.SampledFrom([]string{"long-control", "long-control", "cancelled", "past"}).Draw(rt, "cctx")
+			c.Ctx = rapid.SampledFrom([]string{"long-control", "long-control", "cancelled", "past", "cancel-after-runs", "cancel-after-runs"}).Draw(rt, "cctx")
+			if c.Ctx == "cancel-after-runs" {
+				c.Millis = rapid.IntRange(1, 6).Draw(rt, "priorruns")
+				if rapid.Bool().Draw(rt, "tinyscript") {
+					c.Script = rapid.SampledFrom([]string{"trace(1); return true;", "x = N + 1; trace(x); return x > 2;", "foreach i in 1..3 { trace(i); } return 1;", "function f(a) { trace(a); return a; } return f(N);"}).Draw(rt, "tiny")
+				}
+			}
 		} else {
 			c.Endless = true
 			c.Script, shape = endlessScript(rt)
